@@ -8,7 +8,10 @@ for k in ("GOTOOLCHAIN", "GOSUMDB"):
     env.pop(k, None)
 p = subprocess.Popen(["go", "test", "-json", "-vet=off", "-count=1", "-timeout", "25m"] + pk, cwd="/repo", env=env, stdout=subprocess.PIPE, stderr=subprocess.STDOUT, text=True)
 res = {}
+raw = open(os.environ["RAW_OUT"], "w") if os.environ.get("RAW_OUT") else None
 for line in p.stdout:
+    if raw:
+        raw.write(line)
     try:
         ev = json.loads(line)
     except Exception:
